@@ -169,13 +169,13 @@ pub fn run(case_name: &str, ctx: &mut Ctx, one: Option<&str>, rng: &mut Rng, bud
 // ---- select_inv: the executable copy of `inv()` of unit select.lookup (assumption A-SEL), evaluated on the fields of real structures ----
 // The fields are private; they are read from the `Debug` rendering of the structure (derived, prints every field).
 fn dbg_list(s: &str, field: &str) -> Result<Vec<usize>, String> {
-    let key = format!("{}: [", field);
+    let key = format!(" {}: [", field);   // leading space: `inventory` is not the tail of `subinventory`
     let a = s.rfind(&key).ok_or_else(|| format!("field {} not found in Debug output", field))? + key.len();
     let b = a + s[a..].find(']').ok_or("unterminated list")?;
     s[a..b].split(',').map(|x| x.trim()).filter(|x| !x.is_empty()).map(|x| x.parse::<usize>().map_err(|e| format!("{}: {}", x, e))).collect()
 }
 fn dbg_num(s: &str, field: &str) -> Result<usize, String> {
-    let key = format!("{}: ", field);
+    let key = format!(" {}: ", field);
     let a = s.rfind(&key).ok_or_else(|| format!("field {} not found in Debug output", field))? + key.len();
     let t: String = s[a..].chars().take_while(|c| c.is_ascii_digit()).collect();
     t.parse::<usize>().map_err(|e| format!("{}: {}", field, e))
@@ -233,6 +233,45 @@ fn check_adapt_inv_with(name: &str, dbg: &str, nbits: usize, num: usize, rank: &
     Ok(())
 }
 
+/// `inv9()` of contracts/select9.lookup.vc (assumption A-SEL9) on the fields of a real Select9, clause by clause
+fn check_select9_inv(dbg: &str, words: &[usize], len: usize) -> Result<(), String> {
+    let inv = dbg_list(dbg, "inventory")?; let sub = dbg_list(dbg, "subinventory")?;
+    let inventory_size = dbg_num(dbg, "inventory_size")?; let subinventory_size = dbg_num(dbg, "subinventory_size")?;
+    let mut counts: Vec<usize> = Vec::new();
+    { let mut rest = dbg; while let Some(a) = rest.find("absolute: ") { let t: String = rest[a + 10..].chars().take_while(|c| c.is_ascii_digit()).collect(); counts.push(t.parse().map_err(|_| "absolute")?); rest = &rest[a + 10..]; } }
+    let nbits = words.len() * 64;
+    let bit = |p: usize| -> bool { (words[p / 64] >> (p % 64)) & 1 != 0 };
+    let mut pref = vec![0usize; nbits + 1];
+    for p in 0..nbits { pref[p + 1] = pref[p] + bit(p) as usize; }
+    let num = pref[len];
+    let e = |msg: String| -> Result<(), String> { Err(format!("Select9: A-SEL9 (inv9 of select9.lookup) does not hold: {}", msg)) };
+    if subinventory_size != sub.len() || inv.len() != inventory_size + 1 || num > 512 * inventory_size { return e("sizes".into()); }
+    if counts.len() != (len + 511) / 512 + 1 { return e(format!("{} counters for {} bits", counts.len(), len)); }
+    for i in 0..inventory_size { if inv[i] > inv[i + 1] || inv[i] / 64 >= words.len() { return e(format!("inventory[{}] = {} (next {})", i, inv[i], inv[i + 1])); } }
+    let sel_ok = |p: usize, r: usize| -> bool { p < nbits && bit(p) && pref[p] == r };
+    let le16 = |x: usize, r: usize| -> usize { (0..4).filter(|i| (x >> (16 * i)) & 0xFFFF <= r).count() };
+    let in_block = |b: usize, rank: usize| -> bool { b + 1 < counts.len() && counts[b] <= rank && rank < counts[b + 1] };
+    let subw = |i: usize| -> Option<usize> { <[usize]>::get(&sub, i).copied() };
+    for rank in 0..num {
+        let idx = rank >> 9;
+        let (il, ir) = (inv[idx], inv[idx + 1]);
+        let (bl, br) = (il / 64, ir / 64);
+        let span = br / 4 - bl / 4; let sp = bl / 4; let bb = bl / 8;
+        if bb >= counts.len() || counts[bb] > rank { return e(format!("rank {}: block {} of its entry starts after it", rank, bb)); }
+        let r = rank - counts[bb];
+        let ok = if span <= 1 { in_block(bb, rank) }
+            else if span <= 15 { match (subw(sp), subw(sp + 1)) { (Some(a), Some(b)) => r < 0x10000 && in_block(bb + le16(a, r) + le16(b, r), rank), _ => false } }
+            else if span <= 127 { match (subw(sp), subw(sp + 1)) { (Some(a), Some(b)) => { let c0 = le16(a, r) + le16(b, r);
+                    match (subw(sp + 2 * c0 + 2), subw(sp + 2 * c0 + 3)) { (Some(a2), Some(b2)) => r < 0x10000 && in_block(bb + 8 * c0 + le16(a2, r) + le16(b2, r), rank), _ => false } }, _ => false } }
+            else if span <= 255 { let k = rank % 512; subw(sp + k / 4).map(|w| sel_ok(il + ((w >> (16 * (k % 4))) & 0xFFFF), rank)).unwrap_or(false) }
+            else if span <= 511 { let k = rank % 512; subw(sp + k / 2).map(|w| sel_ok(il + ((w >> (32 * (k % 2))) & 0xFFFF_FFFF), rank)).unwrap_or(false) }
+            else { subw(sp + rank % 512).map(|p| sel_ok(p, rank)).unwrap_or(false) };
+        if !ok { return e(format!("rank {} (entry {}, span {} groups) is not served as promised", rank, idx, span)); }
+        if let Ok(t) = std::env::var("WITNESS_SELFTEST") { if t == format!("s9_{}", if span <= 1 { 0 } else if span <= 15 { 1 } else if span <= 127 { 2 } else if span <= 255 { 3 } else if span <= 511 { 4 } else { 5 }) { return e(format!("selftest: class {} seen", t)); } }
+    }
+    Ok(())
+}
+
 /// input: as for select_all ([len, pushed_before_pops, density or pattern, seed])
 fn inv_case(inp: &[u64]) -> Result<(), String> {
     let (len, total, dens, seed) = (inp[0] as usize, (inp[1] as usize).max(inp[0] as usize), inp[2], inp[3]);
@@ -245,6 +284,7 @@ fn inv_case(inp: &[u64]) -> Result<(), String> {
     check_adapt_inv("SelectAdapt::with_inv(4,1)", &format!("{:?}", SelectAdapt::with_inv(nb(), 4, 1)), &words, len, false)?;
     check_adapt_inv("SelectAdapt::with_inv(9,0)", &format!("{:?}", SelectAdapt::with_inv(nb(), 9, 0)), &words, len, false)?;
     check_adapt_inv("SelectAdapt::with_inv(12,3)", &format!("{:?}", SelectAdapt::with_inv(nb(), 12, 3)), &words, len, false)?;
+    check_select9_inv(&format!("{:?}", Select9::new(Rank9::new(b.clone()))), &words, len)?;
     check_adapt_inv("SelectZeroAdapt(3)", &format!("{:?}", SelectZeroAdapt::new(nb(), 3)), &words, len, true)?;
     check_adapt_inv("SelectZeroAdapt::with_inv(4,1)", &format!("{:?}", SelectZeroAdapt::with_inv(nb(), 4, 1)), &words, len, true)?;
     check_adapt_inv("SelectZeroAdapt::with_inv(12,2)", &format!("{:?}", SelectZeroAdapt::with_inv(nb(), 12, 2)), &words, len, true)?;
